@@ -10,7 +10,7 @@ namespace GrpcProofs.Lemmas.ClientConn
 open GrpcModel.ClientConn
 
 /-- status codes the client itself may assign: 0…16 (codes.OK … codes.Unauthenticated) -/
-def LegalTerm (t : Term) : Prop := ∀ c, t.err = some c → c ≤ 16
+def LegalTerm (t : Term) : Prop := (∀ c, t.err = some c → c ≤ 16) ∧ (t.err = none → t.status.isSome = true)
 
 structure Inv (s : State) : Prop where
   cp : s.tstate = .closing ↔ s.closeP ≠ .none
@@ -152,7 +152,7 @@ theorem Inv.closeStream {s : State} (h : Inv s) (i : Nat) (e : Option Nat) (st :
           subst hx'
           simp [closeF, hnone] at ht
           subst ht
-          intro k hk; exact he k hk
+          exact ⟨fun k hk => he k hk, fun _ => rfl⟩
         · intro x cc l hx hn
           have : (closeF e st x).nonGRPC = x.nonGRPC := by unfold closeF; split <;> rfl
           rw [this] at hn; exact h.ng i x cc l hx hn
@@ -186,7 +186,7 @@ theorem Inv.orphan {s : State} (h : Inv s) (i e : Nat) (he : e ≤ 16) : Inv (s.
     unfold orphanF at ht
     split at ht
     · exact h.lg i x t hx ht
-    · simp at ht; subst ht; intro k hk; simp at hk; omega
+    · simp at ht; subst ht; exact ⟨fun k hk => by simp at hk; omega, fun hn => by simp at hn⟩
   · intro x cc l hx hn
     have : (orphanF e x).nonGRPC = x.nonGRPC := by unfold orphanF; split <;> rfl
     rw [this] at hn; exact h.ng i x cc l hx hn
